@@ -40,6 +40,8 @@ type trUnit struct {
 	optPtr  []string            // struct types whose pointers are optional values (`*T` = Option T, `&T{…}` = some, nil = none)
 	appendCalls map[string]int  // calls `f(sb, text, …)` that append to their first argument (a *strings.Builder): callee -> index of
 	                            // the text argument; translated as `sb := ext.paint sb text` (the other arguments are dropped)
+	record  map[string]trRecord // calls on the receiver that are effects worth keeping: `h.f(a, b)` appends (a, b) to a list
+	                            // field of the receiver's struct (arguments `drop` are left out)
 	skip    []string            // calls (source text of the callee) that are effects outside the translated state: the
 	                            // statement is dropped (its arguments are still guarded)
 	extern  map[string]trExtern // functions of other translated units: source text of the callee -> its translation
@@ -79,7 +81,10 @@ var trUnits = []trUnit{
 		funcs:   []string{"setOption", "DeserializeOptions"}},
 	{ns: "Decode", pkgDir: "internal/server/handlers", panics: true,
 		structs: map[string][]string{"baseHandler": {}},
-		skip:    []string{"h.send", "h.sendln", "h.handleCommandCb", "h.handleOptions", "context.WithCancel"},
+		skip:    []string{"h.send", "h.sendln", "context.WithCancel"},
+		record: map[string]trRecord{
+			"h.handleCommandCb": {field: "started", owner: "baseHandler", types: []string{"GoLContext", "Int", "(List GoString)", "GoString"}, drop: []int{0}},
+			"h.handleOptions":   {field: "options", owner: "baseHandler", types: []string{"(GoMap GoString GoString)"}}},
 		extern:  map[string]trExtern{"config.DeserializeOptions": {lean: "Dtail.Gen.Config.DeserializeOptions", nResults: 3, canPanic: true}},
 		funcs:   []string{"baseHandler.handleProtocolVersion", "baseHandler.handleBase64", "baseHandler.handleCommand"}},
 	{ns: "Brush", pkgDir: "internal/color/brush", panics: true,
@@ -95,6 +100,13 @@ var trUnits = []trUnit{
 		funcs: []string{"token.isKeyword", "tokenize", "tokensConsume", "tokensConsumeStr", "tokensConsumeOptional",
 			"makeSelectConditions", "whereCondition.fill", "makeWhereConditions", "initSetConditions", "makeSetConditions",
 			"Query.parseTokens", "Query.parse", "NewQuery"}},
+}
+
+type trRecord struct {
+	field string   // name of the list field added to the receiver's struct
+	owner string   // the struct
+	types []string // Lean types of the recorded arguments
+	drop  []int    // argument positions that are not recorded (contexts, …)
 }
 
 type trExtern struct {
@@ -311,6 +323,17 @@ func (p *trPkg) emitStruct(sb *strings.Builder, name string) {
 	}
 	if want != nil && n != len(want) {
 		trFail(st, "struct %s lacks one of the fields %v", name, want)
+	}
+	var recNames []string
+	for callee := range p.unit.record {
+		recNames = append(recNames, callee)
+	}
+	sort.Strings(recNames)
+	for _, callee := range recNames {
+		r := p.unit.record[callee]
+		if r.owner == name {
+			fmt.Fprintf(sb, "  %s : List (%s) := []\n", r.field, strings.Join(r.types, " × "))
+		}
 	}
 	fmt.Fprintf(sb, "  deriving Repr, DecidableEq\n\n")
 	fmt.Fprintf(sb, "instance : GoZero %s := ⟨{}⟩\n\n", name)
@@ -651,6 +674,21 @@ func (f *trFn) stmtGuards(s ast.Stmt) []string {
 			if ti, isAppend := f.p.unit.appendCalls[src(call.Fun)]; isAppend {
 				return f.guards(call.Args[ti])
 			}
+			if r, isRec := f.p.unit.record[src(call.Fun)]; isRec {
+				var out []string
+				for i, a := range call.Args {
+					dropped := false
+					for _, d := range r.drop {
+						if d == i {
+							dropped = true
+						}
+					}
+					if !dropped {
+						out = append(out, f.guards(a)...)
+					}
+				}
+				return out
+			}
 		}
 		out = f.guards(st.X)
 	case *ast.IncDecStmt:
@@ -727,6 +765,26 @@ func (f *trFn) stmt1(ind string, s ast.Stmt, next cont) string {
 		}
 		if isLogging(call) || contains(f.p.unit.skip, src(call.Fun)) {
 			return next(ind)
+		}
+		if r, ok := f.p.unit.record[src(call.Fun)]; ok {
+			var vals []string
+			for i, a := range call.Args {
+				dropped := false
+				for _, d := range r.drop {
+					if d == i {
+						dropped = true
+					}
+				}
+				if !dropped {
+					vals = append(vals, f.expr(a))
+				}
+			}
+			recv := f.v(f.recv)
+			tuple := strings.Join(vals, ", ")
+			if len(vals) > 1 {
+				tuple = "(" + tuple + ")"
+			}
+			return fmt.Sprintf("%slet %s := { %s with %s := %s.%s ++ [%s] }\n", ind, recv, recv, r.field, recv, r.field, tuple) + next(ind)
 		}
 		if ti, ok := f.p.unit.appendCalls[src(call.Fun)]; ok {
 			val := fmt.Sprintf("(ext.paint %s %s)", f.expr(call.Args[0]), f.expr(call.Args[ti]))
